@@ -29,7 +29,10 @@ import (
 
 const rule = "cases: a shared value of each structure type (certificate, key certificate with known, reserved and unknown type codes, keys-and-cert, destination, router identity, router address, RouterInfo, LeaseSet, LeaseSet2 with options and offline block, MetaLeaseSet, EncryptedLeaseSet, offline signature, signature, mapping, lease, Lease2; parsed from a fixed-shape model encoding derived from a seed or (half of the cases) from an encoding drawn from the structure generators of C01/C02 - every key type, flag combination, option set, offline block, lease order -, and for identities / LeaseSet2 also built through the constructors) x 2..16 goroutines, each running a generated list of 5..40 read-only operations drawn from {every exported argument-free method of the value (serialise, hash, addresses, validate, verify, accessors), size-table lookups, parsing other data} with generated runtime.Gosched points behind a start barrier; binary built with -race. Oracle: the race detector reports nothing (a report ends the process and the pending case file is the replay), every concurrent result equals the result of the same operation computed sequentially before the fan-out, and the serialisation is unchanged afterwards. Schedules are sampled, not enumerated. Non-trivial: >= 2 goroutines executed at least one common operation on the same value; distinct by (target, operation lists)."
 
-func TestMain(m *testing.M) { ev.Main(m, "C18", rule) }
+func TestMain(m *testing.M) {
+	lib.NoSerial = true // shared values reach the goroutines without any method having been called on them
+	ev.Main(m, "C18", rule)
+}
 
 type Case struct {
 	Target  string  `json:"target"`
